@@ -3,12 +3,14 @@
 -/
 import PdshVerif.Cbuf.Refine
 import PdshVerif.Cbuf.Whole
+import PdshVerif.Cbuf.WrapFlag
 
 namespace PdshVerif.Cbuf
 
 /-- once the buffer fits the request or is at its maximum, `maybeGrow` for a smaller request is a no-op -/
-theorem maybeGrow_noop {c : Cbuf} (n : Nat) (h : n ≤ c.size - c.used ∨ c.size = c.maxsize) :
-    maybeGrow c n = (c, c.size - c.used) := by
+theorem maybeGrow_noop {c : Cbuf} (n : Nat) (h : n ≤ c.size - c.used ∨ c.size = c.maxsize)
+    (pol : Policy := chunkPolicy) :
+    maybeGrow c n pol = (c, c.size - c.used) := by
   unfold maybeGrow
   have : ¬ (n > c.size - c.used ∧ c.size < c.maxsize) := by omega
   simp [this]
@@ -19,16 +21,19 @@ theorem writer_mem_all {c : Cbuf} (hi : Inv c) (bs : List UInt8) (hpos : 0 < bs.
     (hfit : match c.mode with
       | .noDrop => bs.length ≤ c.size - c.used
       | .wrapOnce => bs.length ≤ c.size
-      | .wrapMany => True) :
-    let r := writer c bs.length (.mem bs)
+      | .wrapMany => True) (pol : Policy := chunkPolicy) [Admissible pol] :
+    let r := writer c bs.length (.mem bs) pol
     Inv r.c ∧ r.c.size = c.size ∧ r.c.mode = c.mode ∧ r.c.minsize = c.minsize ∧ r.c.maxsize = c.maxsize ∧
     r.c.used = min (c.used + bs.length) c.size ∧
     r.ndropped = bs.length - (c.size - c.used) ∧
     contents r.c = (contents c ++ bs).drop ((contents c ++ bs).length - c.size) ∧
-    whole r.c = Spec.lastN c.size (whole c ++ bs) := by
-  have hww := writer_whole hi bs.length hpos (.mem bs) (by simp [Src.ok])
-  obtain ⟨_, hcore⟩ := writer_ok hi bs.length hpos (.mem bs) (by simp [Src.ok])
-  rw [maybeGrow_noop bs.length hng] at hcore
+    whole r.c = Spec.lastN c.size (whole c ++ bs) ∧
+    r.ret = (bs.length : Int) ∧
+    r.c.gotWrap = (c.gotWrap || decide (reused c + c.used + bs.length > c.size)) := by
+  have hww := writer_whole hi bs.length hpos (.mem bs) (by simp [Src.ok]) pol
+  have hgf := writer_gotWrap hi bs.length hpos (.mem bs) (by simp [Src.ok]) pol
+  obtain ⟨_, hcore⟩ := writer_ok hi bs.length hpos (.mem bs) (by simp [Src.ok]) pol
+  rw [maybeGrow_noop bs.length hng pol] at hcore
   simp only at hcore
   have hel : effLen c bs.length = some bs.length := by
     unfold effLen
@@ -44,11 +49,12 @@ theorem writer_mem_all {c : Cbuf} (hi : Inv c) (bs : List UInt8) (hpos : 0 < bs.
   have hav : (Src.mem bs).avail bs.length = bs := by simp [Src.avail]
   obtain ⟨e1, e2, e3, e4, e5, e6, e7, e8⟩ := hco.some (by rw [hav]; exact hpos)
   rw [hav] at e1 e2 e8
-  refine ⟨e3, e4, e5, e6, e7, ?_, e2, e8, ?_⟩
+  refine ⟨e3, e4, e5, e6, e7, ?_, e2, e8, ?_, e1, ?_⟩
   rotate_left
   · rw [hww, e1, e4, Int.toNat_natCast]
     simp only [Src.bytes, List.take_length]
-  have := contents_length (writer c bs.length (.mem bs)).c
+  · rw [hgf, e1, e4, Int.toNat_natCast]
+  have := contents_length (writer c bs.length (.mem bs) pol).c
   rw [e8] at this
   simp only [List.length_drop, List.length_append, contents_length] at this
   omega
@@ -88,9 +94,9 @@ end PdshVerif.Cbuf
 
 namespace PdshVerif.Cbuf
 
-theorem maybeGrow_fst (c0 : Cbuf) (len : Nat) :
-    (if len > c0.size - c0.used ∧ c0.size < c0.maxsize then (grow c0 (len - (c0.size - c0.used))).1 else c0) =
-      (maybeGrow c0 len).1 := by
+theorem maybeGrow_fst (c0 : Cbuf) (len : Nat) (pol : Policy := chunkPolicy) :
+    (if len > c0.size - c0.used ∧ c0.size < c0.maxsize then (grow c0 (len - (c0.size - c0.used)) pol).1 else c0) =
+      (maybeGrow c0 len pol).1 := by
   by_cases h : len > c0.size - c0.used ∧ c0.size < c0.maxsize
   · simp only [maybeGrow, h, and_self, if_true]
   · simp only [maybeGrow, h, if_false]
@@ -102,56 +108,80 @@ theorem writeLine_core {c : Cbuf} (hi : Inv c) (psrc : List UInt8) (needNl : Boo
     (hfit : match c.mode with
       | .noDrop => total ≤ c.size - c.used
       | .wrapOnce => total ≤ c.size
-      | .wrapMany => total ≤ c.size) :
+      | .wrapMany => total ≤ c.size) (pol : Policy := chunkPolicy) [Admissible pol] :
     let r1 := if psrc.length > 0 then
-        let r := writer c psrc.length (.mem psrc); (r.c, r.ndropped)
+        let r := writer c psrc.length (.mem psrc) pol; (r.c, r.ndropped)
       else (c, 0)
     let r2 := if needNl then
-        let r := writer r1.1 1 (.mem [10]); (r.c, r.ndropped)
+        let r := writer r1.1 1 (.mem [10]) pol; (r.c, r.ndropped)
       else (r1.1, 0)
     Inv r2.1 ∧ r2.1.size = c.size ∧ r2.1.mode = c.mode ∧ r2.1.minsize = c.minsize ∧ r2.1.maxsize = c.maxsize ∧
     r1.2 + r2.2 = total - (c.size - c.used) ∧
     contents r2.1 = (contents c ++ psrc ++ (if needNl then [10] else [])).drop
       ((contents c ++ psrc ++ (if needNl then [10] else [])).length - c.size) ∧
-    whole r2.1 = Spec.lastN c.size (whole c ++ psrc ++ (if needNl then [10] else [])) := by
+    whole r2.1 = Spec.lastN c.size (whole c ++ psrc ++ (if needNl then [10] else [])) ∧
+    r2.1.gotWrap = (c.gotWrap || decide (reused c + c.used + total > c.size)) := by
   have hu := hi.used
   have hcl := contents_length c
   -- first call
   have h1 : ∃ c1 d1, (if psrc.length > 0 then
-        let r := writer c psrc.length (.mem psrc); (r.c, r.ndropped) else (c, 0)) = (c1, d1) ∧
+        let r := writer c psrc.length (.mem psrc) pol; (r.c, r.ndropped) else (c, 0)) = (c1, d1) ∧
       Inv c1 ∧ c1.size = c.size ∧ c1.mode = c.mode ∧ c1.minsize = c.minsize ∧ c1.maxsize = c.maxsize ∧
       c1.used = min (c.used + psrc.length) c.size ∧ d1 = psrc.length - (c.size - c.used) ∧
       contents c1 = (contents c ++ psrc).drop ((contents c ++ psrc).length - c.size) ∧
-      whole c1 = Spec.lastN c.size (whole c ++ psrc) := by
+      whole c1 = Spec.lastN c.size (whole c ++ psrc) ∧
+      c1.gotWrap = (c.gotWrap || decide (reused c + c.used + psrc.length > c.size)) := by
+    have hsum0 := (reused_facts hi).1
     by_cases hp : psrc.length > 0
     · have hw := writer_mem_all hi psrc hp (by omega)
-        (by cases hm : c.mode <;> simp only [hm] at hfit ⊢ <;> omega)
+        (by cases hm : c.mode <;> simp only [hm] at hfit ⊢ <;> omega) pol
       simp only [hp, if_true]
       exact ⟨_, _, rfl, hw.1, hw.2.1, hw.2.2.1, hw.2.2.2.1, hw.2.2.2.2.1, hw.2.2.2.2.2.1, hw.2.2.2.2.2.2.1,
-        hw.2.2.2.2.2.2.2.1, hw.2.2.2.2.2.2.2.2⟩
+        hw.2.2.2.2.2.2.2.1, hw.2.2.2.2.2.2.2.2.1, hw.2.2.2.2.2.2.2.2.2.2⟩
     · have hnil : psrc = [] := List.eq_nil_of_length_eq_zero (by omega)
       simp only [hp, if_false]
-      refine ⟨c, 0, rfl, hi, rfl, rfl, rfl, rfl, ?_, ?_, ?_, ?_⟩
+      refine ⟨c, 0, rfl, hi, rfl, rfl, rfl, rfl, ?_, ?_, ?_, ?_, ?_⟩
       · subst hnil; simp; omega
       · subst hnil; simp
       · subst hnil; simp [hcl]; have : c.used - c.size = 0 := by omega
         rw [this]; simp
       · subst hnil; rw [List.append_nil, lastN_all _ _ (whole_le hi)]
-  obtain ⟨c1, d1, he1, hi1, hs1, hm1, hmin1, hmax1, hu1, hd1, hq1, hwh1⟩ := h1
+      · subst hnil
+        have : decide (reused c + c.used + ([] : List UInt8).length > c.size) = false := by
+          simp only [List.length_nil, decide_eq_false_iff_not]; omega
+        rw [this, Bool.or_false]
+  obtain ⟨c1, d1, he1, hi1, hs1, hm1, hmin1, hmax1, hu1, hd1, hq1, hwh1, hgw1⟩ := h1
+  -- how much the buffer holds after the first call
+  have hheld1 : reused c1 + c1.used = min (reused c + c.used + psrc.length) c.size := by
+    have := congrArg List.length hwh1
+    rw [whole_length] at this
+    simp only [Spec.lastN, List.length_drop, List.length_append, whole_length] at this
+    omega
   simp only [he1]
   cases needNl with
   | false =>
     simp only [Bool.false_eq_true, if_false, List.append_nil, Nat.add_zero] at htot ⊢
-    exact ⟨hi1, hs1, hm1, hmin1, hmax1, by omega, hq1, hwh1⟩
+    refine ⟨hi1, hs1, hm1, hmin1, hmax1, by omega, hq1, hwh1, ?_⟩
+    rw [hgw1, htot]
   | true =>
     simp only [if_true] at htot ⊢
     have hw := writer_mem_all hi1 [10] (by simp)
       (by simp only [List.length_cons, List.length_nil]; rw [hs1, hu1, hmax1]; omega)
       (by rw [hm1]; cases hm : c.mode <;> simp only [hm] at hfit ⊢ <;>
-            simp only [List.length_cons, List.length_nil] <;> (try rw [hs1, hu1]) <;> omega)
+            simp only [List.length_cons, List.length_nil] <;> (try rw [hs1, hu1]) <;> omega) pol
     simp only [List.length_cons, List.length_nil, Nat.zero_add] at hw
-    obtain ⟨w1, w2, w3, w4, w5, _, w7, w8, w9⟩ := hw
-    refine ⟨w1, by rw [w2, hs1], by rw [w3, hm1], by rw [w4, hmin1], by rw [w5, hmax1], ?_, ?_, ?_⟩
+    obtain ⟨w1, w2, w3, w4, w5, _, w7, w8, w9, _, w11⟩ := hw
+    refine ⟨w1, by rw [w2, hs1], by rw [w3, hm1], by rw [w4, hmin1], by rw [w5, hmax1], ?_, ?_, ?_, ?_⟩
+    rotate_left 3
+    · -- the flag after both calls
+      rw [w11, hgw1, hheld1, hs1, htot]
+      by_cases h : reused c + c.used + psrc.length > c.size
+      · have h2 : reused c + c.used + (psrc.length + 1) > c.size := by omega
+        simp [h, h2]
+      · have : min (reused c + c.used + psrc.length) c.size = reused c + c.used + psrc.length := by omega
+        rw [this]
+        have e : reused c + c.used + psrc.length + 1 = reused c + c.used + (psrc.length + 1) := by omega
+        simp [h, e]
     · rw [w7, hd1, hs1, hu1]; omega
     · rw [w8, hq1, hs1]
       exact lastN_lastN (contents c) psrc c.size
@@ -174,14 +204,21 @@ theorem lastN_drop_prefix (a b : List UInt8) (k n : Nat) (hk : k ≤ a.length)
   conv => rhs; rw [e]
   rw [lastN_of_tail_ge _ _ _ h]
 
-theorem writeLine_refines {c0 : Cbuf} (hi : Inv c0) (s : List UInt8) :
-    Spec.writeLine (abs c0) s (writeLine c0 s).2.2.size =
-      some ((writeLine c0 s).1, (writeLine c0 s).2.1, abs (writeLine c0 s).2.2) ∧
-    Inv (writeLine c0 s).2.2 ∧
-    whole (writeLine c0 s).2.2 = Spec.lastN (writeLine c0 s).2.2.size
-      (whole c0 ++ if (writeLine c0 s).1 < 0 then [] else
-        (if s.length = 0 ∨ s.getLast? ≠ some 10 then s ++ [10] else s)) := by
-  have hgw0 : ∀ len, whole (maybeGrow c0 len).1 = whole c0 := fun len => maybeGrow_whole hi len
+theorem writeLine_refines {c0 : Cbuf} (hi : Inv c0) (s : List UInt8) (pol : Policy := chunkPolicy) [Admissible pol] :
+    Spec.writeLine (abs c0) s (writeLine c0 s pol).2.2.size =
+      some ((writeLine c0 s pol).1, (writeLine c0 s pol).2.1, abs (writeLine c0 s pol).2.2) ∧
+    Inv (writeLine c0 s pol).2.2 ∧
+    whole (writeLine c0 s pol).2.2 = Spec.lastN (writeLine c0 s pol).2.2.size
+      (whole c0 ++ if (writeLine c0 s pol).1 < 0 then [] else
+        (if s.length = 0 ∨ s.getLast? ≠ some 10 then s ++ [10] else s)) ∧
+    -- got_wrap: an over-long line is cut to the capacity BEFORE it is written
+    (writeLine c0 s pol).2.2.gotWrap = (c0.gotWrap || decide (reused c0 + c0.used +
+      (if (writeLine c0 s pol).1 < 0 then 0 else
+        min (if s.length = 0 ∨ s.getLast? ≠ some 10 then s ++ [10] else s).length (writeLine c0 s pol).2.2.size) >
+      (writeLine c0 s pol).2.2.size)) := by
+  have hgm : ∀ len, (maybeGrow c0 len pol).1.gotWrap = c0.gotWrap ∧ reused (maybeGrow c0 len pol).1 = reused c0 :=
+    fun len => maybeGrow_meta hi len pol
+  have hgw0 : ∀ len, whole (maybeGrow c0 len pol).1 = whole c0 := fun len => maybeGrow_whole hi len pol
   unfold writeLine
   simp only [maybeGrow_fst]
   -- the line actually appended
@@ -190,10 +227,14 @@ theorem writeLine_refines {c0 : Cbuf} (hi : Inv c0) (s : List UInt8) :
     rw [← hnl]; simp
   simp only [hnl']
   generalize hlen : (if needNl = true then s.length + 1 else s.length) = len
-  have hg := maybeGrow_ok hi len
+  have hg := maybeGrow_ok hi len pol
   have hgw := hgw0 len
-  generalize (maybeGrow c0 len).1 = c at hg hgw
-  generalize (maybeGrow c0 len).2 = nf at hg
+  have hgmeta := hgm len
+  generalize (maybeGrow c0 len pol).1 = c at hg hgw hgmeta
+  generalize (maybeGrow c0 len pol).2 = nf at hg
+  obtain ⟨hgflag, hgreu⟩ := hgmeta
+  have hgused := hg.used
+  have hsumc := (reused_facts hg.inv).1
   have hci := hg.inv
   have hsp := hci.spos; have hu := hci.used
   have hcl : (contents c0).length = c.used := by rw [contents_length, hg.used]
@@ -235,9 +276,15 @@ theorem writeLine_refines {c0 : Cbuf} (hi : Inv c0) (s : List UInt8) :
   cases refused with
   | true =>
     rw [if_pos rfl]
-    refine ⟨?_, hci, by simp only [Int.reduceNeg, Int.reduceLT, if_true, List.append_nil]; rw [← hgw, lastN_all _ _ (whole_le hci)]⟩
-    simp only [Spec.writeLine, hline, hll, hadm, Bool.not_true, Bool.false_eq_true, if_false, abs_q, hcl, abs_mode,
-      abs_minsize, abs_maxsize, hrefS, hlo, if_true, habs]
+    refine ⟨?_, hci, by simp only [Int.reduceNeg, Int.reduceLT, if_true, List.append_nil]; rw [← hgw, lastN_all _ _ (whole_le hci)], ?_⟩
+    · simp only [Spec.writeLine, hline, hll, hadm, Bool.not_true, Bool.false_eq_true, if_false, abs_q, hcl, abs_mode,
+        abs_minsize, abs_maxsize, hrefS, hlo, if_true, habs]
+    · -- refused: nothing is written, the flag stays
+      simp only [Int.reduceNeg, Int.reduceLT, if_true]
+      rw [hgflag]
+      have : decide (reused c0 + c0.used + 0 > c.size) = false := by
+        simp only [decide_eq_false_iff_not]; omega
+      rw [this, Bool.or_false]
   | false =>
     rw [if_neg (by simp)]
     -- bytes of the line itself that cannot fit at all
@@ -256,19 +303,19 @@ theorem writeLine_refines {c0 : Cbuf} (hi : Inv c0) (s : List UInt8) :
     have hcore := writeLine_core hci (s.drop nd) needNl (len - nd) htot
       (by rw [← hnd]; split <;> omega)
       (by rw [← hnd]; split <;> omega)
-      (by cases hm : c.mode <;> simp only [hm] at hfitm ⊢ <;> rw [← hnd] <;> split <;> omega)
+      (by cases hm : c.mode <;> simp only [hm] at hfitm ⊢ <;> rw [← hnd] <;> split <;> omega) pol
     rw [hpl] at hcore
     simp only [] at hcore
     generalize hr1 : (if s.length - nd > 0 then
-        ((writer c (s.length - nd) (.mem (s.drop nd))).c, (writer c (s.length - nd) (.mem (s.drop nd))).ndropped)
+        ((writer c (s.length - nd) (.mem (s.drop nd)) pol).c, (writer c (s.length - nd) (.mem (s.drop nd)) pol).ndropped)
       else (c, 0)) = r1 at hcore
     obtain ⟨c1, d1⟩ := r1
     simp only [hr1] at hcore ⊢
     generalize hr2 : (if needNl = true then
-        ((writer c1 1 (.mem [10])).c, (writer c1 1 (.mem [10])).ndropped) else (c1, 0)) = r2 at hcore
+        ((writer c1 1 (.mem [10]) pol).c, (writer c1 1 (.mem [10]) pol).ndropped) else (c1, 0)) = r2 at hcore
     obtain ⟨c2, d2⟩ := r2
     simp only [hr2] at hcore ⊢
-    obtain ⟨k1, k2, k3, k4, k5, k6, k7, k8⟩ := hcore
+    obtain ⟨k1, k2, k3, k4, k5, k6, k7, k8, k9⟩ := hcore
     have hgen : ∀ w : List UInt8,
         (w ++ s.drop nd ++ if needNl = true then [10] else []).drop
           ((w ++ s.drop nd ++ if needNl = true then [10] else []).length - c.size) =
@@ -286,7 +333,7 @@ theorem writeLine_refines {c0 : Cbuf} (hi : Inv c0) (s : List UInt8) :
         exact lastN_drop_prefix s _ nd c.size hndle (by omega)
       · have hndv : nd = 0 := by rw [← hnd]; simp [hbig]
         rw [hndv]; simp [List.append_assoc]
-    refine ⟨?_, k1, ?_⟩
+    refine ⟨?_, k1, ?_, ?_⟩
     rotate_left
     · have hnn : ¬ ((len : Int) < 0) := by omega
       simp only [hnn, if_false]
@@ -294,6 +341,16 @@ theorem writeLine_refines {c0 : Cbuf} (hi : Inv c0) (s : List UInt8) :
         cases needNl <;> simp
       rw [k8, k2, hgw, hline2]
       exact hgen (whole c0)
+    · -- the flag: the two writer calls store `len - nd = min len size` bytes
+      have hnn : ¬ ((len : Int) < 0) := by omega
+      have hlinelen : (if needNl = true then s ++ [10] else s).length = len := by
+        rw [← hlen]; cases needNl <;> simp
+      have hphys : len - nd = min len c.size := by rw [← hnd]; split <;> omega
+      simp only [hnn, if_false]
+      rw [k9, k2, hgflag, hlinelen, hphys]
+      congr 1
+      apply decide_congr
+      omega
     rw [k2]
     simp only [Spec.writeLine, hline, hll, hadm, Bool.not_true, Bool.false_eq_true, if_false, abs_q, hcl, abs_mode,
       abs_minsize, abs_maxsize, hrefS, hlo]
